@@ -160,6 +160,6 @@ def jobs(tier):
         k = 1
     js = []
     for i, (rels, h) in enumerate(scs):
-        js.append(Job('scenario%04d' % i, 'C09_lra.cpp', 'h_lra', LRA_UNITS, 100, params=scen(rels, h), timeout=240, mem=6,
+        js.append(Job('scenario%04d' % i, 'C09_lra.cpp', 'h_lra', LRA_UNITS, 100, params=scen(rels, h), timeout=240 if tier == 'quick' else 480, mem=6 if tier == 'quick' else 8,
                       desc=fmt(rels, h), bounds={'variables': 2, 'relations': len(rels), 'history': len(h), 'grid': 6}))
     return batch(js, k)
